@@ -10,7 +10,7 @@ CLAIMED = {
             "numpy's byte reinterpretation and fsspec I/O are contracts (tested); model tied by differential testing", "7 C01"),
     "C02": ("Lean theorem getitem_eq_np: model of Array.__getitem__ = NumPy basic indexing of the loaded image for every image, rpc and basic key; BASIC support re-read from source; correspondence over the full slice cube; isel/vectorised oracle vs in-memory twin",
             "xarray's indexer decomposition is third-party (tested end-to-end; two xarray-internal failures are recorded as known findings)", "7 C02"),
-    "C06": ("Lean theorems image_rpc_independent (layout-based reader: two successful opens of a well-framed image with any two chunk sizes return the same header, line records, image group and array metadata up to the chunk size) / record_window (translation invariance of the layout interpreter on the line-record layouts) / metadata_rpc_independent / data_rpc_independent / preferred_chunksize; pairwise bit-exact tree comparison oracle",
+    "C06": ("Lean theorems product_rpc_independent (whole-product model: root attributes, summary, /metadata and the set and order of image groups do not depend on the chunk size) / image_rpc_independent (layout-based reader: two successful opens of a well-framed image with any two chunk sizes return the same header, line records, image group and array metadata up to the chunk size) / record_window (translation invariance of the layout interpreter on the line-record layouts) / metadata_rpc_independent / data_rpc_independent / preferred_chunksize; pairwise bit-exact tree comparison oracle",
             "float division in math.ceil exact below 2**53", "7 C06"),
     "C11": ("Lean theorems on the I/O trace component of the model (one seek+read per touched chunk, confined to the chunk and the file; open pass = prefix of ceil(n/rpc) sequential reads); event-sequence correspondence against a tracing file object; instrumented-filesystem oracle",
             "xarray may widen selections before the backend is called; bound checked against the selection's line span", "7 C11"),
@@ -42,8 +42,8 @@ CLAIMED = {
             "the property's attitude clause is false for the code (recorded known finding, test suite pins it); timedelta/strptime are contracts", "7 C17"),
     "C19": ("Lean theorems noninterference (every interleaving, any number of loads), finished_equals_solo, no_deadlock, completes over an interleaving model whose per-load program is the getitem trace; source facts (private handle, per-variable lock) re-read from the AST; deterministic-scheduler oracle enumerating interleavings of real threads",
             "real schedules / GIL / lock implementation only enumerated at filesystem yield points", "7 C19"),
-    "C20": ("Lean theorems blank_int/float/text, no_derived_attribute, padding_inert + padding_inert_leader_records (dataset summary, radiometric, facility-5, platform-position, map-projection records: records agreeing on live-field bytes give equal output), live_fields_only(2), field_locality (13 fixed-size layouts); oracle: nullable fields blanked individually and in subsets, padding rewritten with random content",
-            "line records, the attitude / data-quality records and the volume directory: padding inertness by oracle only", "7 C20"),
+    "C20": ("Lean theorems blank_int/float/text, no_derived_attribute, padding_inert + padding_inert_leader_records (dataset summary, radiometric, facility-5, platform-position, map-projection records: records agreeing on live-field bytes give equal output), padding_inert_counted_records (attitude, data quality: only the count and the entries present matter; unused slots, trailing blanks, preamble are inert), padding_inert_volume_directory (file-pointer records are inert), live_fields_only(2), field_locality (13 fixed-size layouts); oracle: nullable fields blanked individually and in subsets, padding rewritten with random content",
+            "line records: padding inertness by field_locality + the oracle (the microsecond stamp depends on a second field)", "7 C20"),
     "C18": ("Lean theorems truncated_image (for arbitrary bytes: short file => error or fewer than n records), complete_image, missing_summary; whole-product correspondence on damaged products (error classes of truncated / removed / corrupted files); truncation/missing-file oracle over every record boundary +-1 x rpc",
             "xarray.Dataset's dimension check and promptness are not proved (measured)", "7 C18"),
 }
